@@ -236,17 +236,130 @@ theorem sg_needs_flush_assumption :
   refine ⟨?_, by decide, by decide, by decide, by decide⟩
   simp [Delivers]
 
+/-- `sg_prefix_property` for a whole connection: both directions' calls interleaved in any way, a fresh
+    connection (as `New` makes it); the calls of direction `s2c` are `pre ++ post`. -/
+theorem sg_prefix_property_conn (sent : List α) (segs : List (Seg α)) (base : Nat) (cs pre post : List (SGCall α))
+    (s2c : Bool) (hcalls : callsOf s2c cs = pre ++ post)
+    (hs : Slices sent segs) (hlen : prefixEnd segs base ≤ sent.length)
+    (hI : GopacketInterface sent segs base pre post) (ipc ips pc ps : List UInt8) :
+    (dirOf s2c (runSG (newConn ipc ips pc ps) cs)).buffer = (reasmFrom segs base).1 ∧
+    (0 < (dirOf s2c (runSG (newConn ipc ips pc ps) cs)).skippedBytes % 18446744073709551616 ↔
+      (reasmFrom segs base).2 = true) := by
+  rw [dirOf_runSG, hcalls]
+  apply sg_prefix_property sent segs base pre post hs hlen hI
+  cases s2c <;> simp [dirOf, newConn]
+
+/-! ### sections (pcapng): one flows decoder per section, flushed at the section's end -/
+
+/-- what a section's capture and gopacket's calls look like for one direction of one connection -/
+structure SectionDir (α : Type) where
+  sent : List α
+  segs : List (Seg α)
+  base : Nat
+  calls : List (SGCall α)       -- all calls of the section's connection, both directions
+  s2c : Bool
+  pre : List (SGCall α)
+  post : List (SGCall α)
+
+/-- `sg_sections_property`: a capture of several sections, each decoded by its own fresh connection table and
+    flushed at its own end (`runSections`).  If within every section the calls obey the interface assumption
+    relative to THAT section's captured segments (flush-per-section discipline: skips only in the flush that
+    ends the section), then every section's report is the reference result on that section's segments —
+    whatever the other sections contain, e.g. the other part of a connection that spans the boundary. -/
+theorem sg_sections_property (secs : List (SectionDir α))
+    (hcalls : ∀ sd ∈ secs, callsOf sd.s2c sd.calls = sd.pre ++ sd.post)
+    (hs : ∀ sd ∈ secs, Slices sd.sent sd.segs) (hlen : ∀ sd ∈ secs, prefixEnd sd.segs sd.base ≤ sd.sent.length)
+    (hI : ∀ sd ∈ secs, GopacketInterface sd.sent sd.segs sd.base sd.pre sd.post)
+    (i : Nat) (hi : i < secs.length) :
+    ∃ t, (runSections (secs.map (·.calls)))[i]? = some t ∧
+      (dirOf secs[i].s2c t).buffer = (reasmFrom secs[i].segs secs[i].base).1 ∧
+      (0 < (dirOf secs[i].s2c t).skippedBytes % 18446744073709551616 ↔
+        (reasmFrom secs[i].segs secs[i].base).2 = true) := by
+  have hm : secs[i] ∈ secs := List.getElem_mem hi
+  refine ⟨runSG {} secs[i].calls, by simp [runSections, hi], ?_⟩
+  have := sg_prefix_property_conn secs[i].sent secs[i].segs secs[i].base secs[i].calls secs[i].pre secs[i].post
+    secs[i].s2c (hcalls _ hm) (hs _ hm) (hlen _ hm) (hI _ hm) [] [] [] []
+  simpa [newConn, be16] using this
+
+/-- sections do not influence each other: the result for a section is a function of its own calls -/
+theorem sections_independent (a b : List (List (SGCall α))) :
+    runSections (a ++ b) = runSections a ++ runSections b := by
+  simp [runSections]
+
+/-- how fq forms sections (as the code is): with a given section_length the file's sections, each with its own
+    interface table; with section_length −1 one section for the whole file whose interface table is the
+    concatenation of all interface descriptions read so far -/
+theorem fq_sectioning (secs : List (List Nat)) (links : List (List String)) (s j : Nat) :
+    fqSectioning true secs = secs ∧ fqSectioning false secs = [secs.flatten] ∧
+    fqInterfaceLink true links s j = (links.getD s [])[j]? ∧
+    fqInterfaceLink false links s j = ((links.take (s + 1)).flatten)[j]? := by
+  simp [fqSectioning, fqInterfaceLink]
+
+/-- with identical interface lists in every section (what a capturing tool that restarts a section writes) the
+    merged table gives every packet its own section's link type -/
+theorem fq_interface_link_same (ls : List String) (n s j : Nat) (hs : s < n) (hj : j < ls.length) :
+    fqInterfaceLink false (List.replicate n ls) s j = ls[j]? := by
+  simp only [fqInterfaceLink, Bool.false_eq_true, ↓reduceIte]
+  have : List.take (s + 1) (List.replicate n ls) = ls :: List.replicate s ls := by
+    rw [List.take_replicate, Nat.min_eq_left (by omega), List.replicate_succ]
+  rw [this, List.flatten_cons, List.getElem?_append_left hj]
+
+/-! ### order of `tcp_connections` and `ipv4_reassembled` -/
+
+/-- `conn_order`: the model's connection list (`firstSeen` over the (4-tuple, sender) of every segment that
+    reaches the assembler, in capture order)
+      * lists every connection that has a packet, exactly once;
+      * records as client the sender of the connection's first packet;
+      * is a subsequence of the packet list — connections appear in the order of their first packets;
+      * only grows at the end when more packets are captured (first appearance order is stable). -/
+theorem conn_order {κ δ : Type} [BEq κ] [LawfulBEq κ] (l m : List (κ × δ)) :
+    (∀ k, k ∈ (firstSeen l).map (·.1) ↔ k ∈ l.map (·.1)) ∧
+    ((firstSeen l).map (·.1)).Nodup ∧
+    (∀ k d, (k, d) ∈ firstSeen l → l.find? (fun p => p.1 == k) = some (k, d)) ∧
+    (firstSeen l).Sublist l ∧
+    firstSeen (l ++ m) = firstSeen l ++ (firstSeen m).filter fun p => !(l.map (·.1)).contains p.1 :=
+  ⟨fun k => mem_firstSeen_keys k l, firstSeen_keys_nodup l, fun k d => firstSeen_find k d l, firstSeen_sublist l,
+    firstSeen_append l m⟩
+
+/-- `reassembled_order`: the datagrams the reference defragmenter completes over a packet sequence are listed in
+    the order in which their completing fragments arrive (the (key, completing fragment) list is a
+    subsequence of the input), and more packets only append. -/
+theorem reassembled_order {κ : Type} [BEq κ] (l m : List (κ × Frag α)) (st : FragGroups κ α) :
+    ((defragRun st l).map fun o => (o.1, o.2.2)).Sublist l ∧
+    defragRun st (l ++ m) = defragRun st l ++ defragRun (defragState st l) m :=
+  ⟨defragRun_sublist l st, defragRun_append l m st⟩
+
 /-! ### endpoint extraction, dispatch table, metadata: small facts by evaluation -/
 
 /-- `New`: the first packet's source is the client; ports are the big-endian 16 bit transport endpoints; an
-    endpoint that is not two bytes long gives port 0 -/
+    endpoint that is not two bytes long gives port 0; IPv6 flows give 16 byte addresses, copied as they are -/
 theorem newConn_endpoints :
     (newConn (α := Nat) [10, 0, 0, 1] [10, 1, 0, 2] [0x04, 0xd2] [0x00, 0x50]).client.ip = [10, 0, 0, 1] ∧
     (newConn (α := Nat) [10, 0, 0, 1] [10, 1, 0, 2] [0x04, 0xd2] [0x00, 0x50]).client.port = 1234 ∧
     (newConn (α := Nat) [10, 0, 0, 1] [10, 1, 0, 2] [0x04, 0xd2] [0x00, 0x50]).server.ip = [10, 1, 0, 2] ∧
     (newConn (α := Nat) [10, 0, 0, 1] [10, 1, 0, 2] [0x04, 0xd2] [0x00, 0x50]).server.port = 80 ∧
     (newConn (α := Nat) [10, 0, 0, 1] [10, 1, 0, 2] [] [1, 2, 3]).client.port = 0 ∧
-    (newConn (α := Nat) [10, 0, 0, 1] [10, 1, 0, 2] [] [1, 2, 3]).server.port = 0 := by decide
+    (newConn (α := Nat) [10, 0, 0, 1] [10, 1, 0, 2] [] [1, 2, 3]).server.port = 0 ∧
+    (∀ (a b : List UInt8) (p q : List UInt8),
+      (newConn (α := Nat) a b p q).client.ip = a ∧ (newConn (α := Nat) a b p q).server.ip = b ∧
+      (newConn (α := Nat) a b p q).client.buffer = [] ∧ (newConn (α := Nat) a b p q).server.skippedBytes = 0) := by
+  refine ⟨by decide, by decide, by decide, by decide, by decide, by decide, ?_⟩
+  intro a b p q
+  simp [newConn]
+
+/-- the textual address fieldFlows prints (`net.IP.String()`): dotted IPv4; IPv6 with the leftmost longest run
+    of at least two zero groups compressed, a single zero group kept, lower case without leading zeros;
+    IPv4-mapped IPv6 printed as IPv4 -/
+theorem ip_string_examples :
+    ipString [10, 1, 0, 174] = "10.1.0.174" ∧
+    ipString [0x20, 0x01, 0x0d, 0xb8, 0, 0, 0, 0, 0, 0, 0, 0, 0, 0, 0, 1] = "2001:db8::1" ∧
+    ipString [0, 0, 0, 0, 0, 0, 0, 0, 0, 0, 0, 0, 0, 0, 0, 1] = "::1" ∧
+    ipString [0, 0, 0, 0, 0, 0, 0, 0, 0, 0, 0, 0, 0, 0, 0, 0] = "::" ∧
+    ipString [0x20, 0x01, 0x0d, 0xb8, 0, 0, 0, 0, 0, 1, 0, 0, 0, 0, 0, 1] = "2001:db8::1:0:0:1" ∧
+    ipString [0x20, 0x01, 0, 0, 0, 0, 0, 1, 0, 0, 0, 0, 0, 0, 0, 1] = "2001:0:0:1::1" ∧
+    ipString [0x20, 0x01, 0x0d, 0xb8, 0, 0, 0, 1, 0, 1, 0, 1, 0, 1, 0, 1] = "2001:db8:0:1:1:1:1:1" ∧
+    ipString [0xfd, 0, 0, 0, 0, 0, 0, 0, 0, 0, 0, 0, 0xab, 0xcd, 0, 0] = "fd00::abcd:0" ∧
+    ipString [0, 0, 0, 0, 0, 0, 0, 0, 0, 0, 0xff, 0xff, 10, 1, 0, 174] = "10.1.0.174" := by decide
 
 /-- equal ports: the direction is taken from the assembler's flag alone, never from the port numbers -/
 theorem sg_direction_by_flag_only (t : Conn α) (c : SGCall α) :
@@ -256,7 +369,7 @@ theorem sg_direction_by_flag_only (t : Conn α) (c : SGCall α) :
 
 /-- every link type of the specification is served by the decoder that reads it, and SLL / SLL2 differ -/
 theorem link_table_ok :
-    (["eth", "raw", "ipv4", "sll", "sll2", "null"].all fun l =>
+    (["eth", "raw", "ipv4", "ipv6", "sll", "sll2", "null"].all fun l =>
       match linkSpec l with
       | some (n, d) => linkToDecodeFn n == some d
       | none => false) = true ∧
@@ -288,6 +401,20 @@ theorem defrag_length_regression :
 theorem fsm_reorder_witness :
     fsmRun {} [(false, true, true, false, false), (false, true, false, false, false)] = [true, false] ∧
     fsmRun {} [(false, true, false, false, false), (false, true, true, false, false)] = [true, true] := by decide
+
+/-- known finding `pcapng-shb-section`: section_length −1, second section with an SLL2 interface after a first
+    section with an ethernet interface: fq keeps ONE section and looks interface id 0 of the second section up
+    in the accumulated table — ethernet. -/
+theorem pcapng_shb_section_witness :
+    fqSectioning false [[1, 2], [3]] = [[1, 2, 3]] ∧
+    fqInterfaceLink false [["eth"], ["sll2"]] 1 0 = some "eth" ∧
+    fqInterfaceLink true [["eth"], ["sll2"]] 1 0 = some "sll2" := by decide
+
+/-- known finding `pcapng-section-length`: fq measures the section length from the start of the section header
+    block; a section whose last block (100 bytes) is not longer than its 460 byte header block is left one
+    block early, with the 48 byte header the harness normally writes it is not -/
+theorem pcapng_section_length_witness :
+    sectionEndsEarly 460 100 = true ∧ sectionEndsEarly 48 100 = false ∧ sectionEndsEarly 48 32 = true := by decide
 
 /-! ### non-vacuity -/
 
